@@ -50,8 +50,9 @@ def timing_scenarios(tier):
     out = []
     Z = ("Z", Pass())
     other = chain(("OW", Wait(3)), ("OZ", Pass()))
-    def two(name, d, inp=None, workers=None, budget=2, **kw):
-        sc = multi(name, {"m": {"definition": d}, "o": {"definition": other}},
+    def two(name, d, inp=None, workers=None, budget=2, other_wait=None, **kw):
+        oth = other if other_wait is None else chain(("OW", Wait(other_wait)), ("OZ", Pass()))
+        sc = multi(name, {"m": {"definition": d}, "o": {"definition": oth}},
                    [{"machine": "m", "name": "e1", "input": {} if inp is None else inp}, {"machine": "o", "name": "e2", "input": {}}],
                    workers=workers or {}, family=name, schedule="timed", delay_budget=budget, **kw)
         out.append(sc)
@@ -70,13 +71,18 @@ def timing_scenarios(tier):
         two("task-timeout-slow-worker-" + hname, d, workers={"f1": {"*": [["delay", ["ok", {"r": 1}]]]}})
         two("task-timeout-never-" + hname, d, workers={"f1": {"*": NONE}}, budget=1)
     # execution time-out inside a Task / Wait / fan-out, with handlers that must not intercept it
-    ALL = {"Retry": [{"ErrorEquals": ["States.ALL"], "IntervalSeconds": 1, "MaxAttempts": 2}], "Catch": [{"ErrorEquals": ["States.ALL"], "Next": "Z"}]}
+    ALL = {"Retry": [{"ErrorEquals": ["States.ALL"], "IntervalSeconds": 1, "MaxAttempts": 2}], "Catch": [{"ErrorEquals": ["States.ALL"], "Next": "Z", "ResultPath": "$.caught"}]}
     d = chain(("T", Task("f1", **ALL)), Z); d["TimeoutSeconds"] = 6
     two("exec-timeout-in-task", d, workers={"f1": {"*": NONE}}, budget=1)
     d = chain(("T", Task("f1", TimeoutSeconds=20, **ALL)), Z); d["TimeoutSeconds"] = 4
     two("exec-timeout-before-task-timeout", d, workers={"f1": {"*": NONE}}, budget=1)
     d = chain(("W", Wait(10)), Z); d["TimeoutSeconds"] = 4
     two("exec-timeout-in-wait", d, budget=1)
+    # the Task (Wait) event itself is delivered after the execution deadline (backlog): still an uninterceptable execution time-out
+    d = chain(("A", Pass()), ("T", Task("f1", TimeoutSeconds=20, **ALL)), Z); d["TimeoutSeconds"] = 4
+    two("exec-timeout-late-task-event", d, workers={"f1": {"*": NONE}}, budget=2, other_wait=6)
+    d = chain(("A", Pass()), ("W", Wait(1)), Z); d["TimeoutSeconds"] = 4
+    two("exec-timeout-late-wait-event", d, budget=2, other_wait=6)
     d = chain(("P", Parallel([chain(("A1", Task("fa"))), chain(("B1", Wait(30)))], **ALL)), Z); d["TimeoutSeconds"] = 5
     two("exec-timeout-in-parallel", d, workers={"fa": {"*": NONE}}, budget=1)
     d = chain(("A", Pass()), ("T", Task("f1")), Z); d["TimeoutSeconds"] = 5
